@@ -11,6 +11,9 @@ CONSTANTS
   MayFail = TRUE
   OutcomeSet = {"content", "cmd", "timeout", "crash", "skip"}
   BackedSet = {FALSE, TRUE}
+  FilterSet = {FALSE}
+  Budget = 2
+  BudgetMode = "per-load"
   RecordMode = "component"
   PoolSet = {FALSE}
   AssembleMode = "index"
